@@ -49,6 +49,12 @@ impl Rng {
         self.big(b)
     }
     pub fn uuid(&mut self) -> String {
+        // the two extreme uuids are ids like any other
+        match self.below(400) {
+            0 => return "00000000-0000-0000-0000-000000000000".to_string(),
+            1 => return "ffffffff-ffff-ffff-ffff-ffffffffffff".to_string(),
+            _ => {}
+        }
         let a = self.next();
         let b = self.next();
         let h = format!("{:016x}{:016x}", a, b);
@@ -58,8 +64,9 @@ impl Rng {
 
 pub const ACCTS: [&str; 8] = ["alice", "bob", "carol", "dave", "erin", "frank", "gina", "hank"];
 pub const BASE: &str = "base";
-pub const CONVS: [&str; 2] = ["conv1", "conv2"];
-pub const QUOTES: [&str; 2] = ["quote1", "quote2"];
+// (one traded denomination is a fragment of another: "quote1" of "quote12", the base of "base2")
+pub const CONVS: [&str; 2] = ["conv1", "base2"];
+pub const QUOTES: [&str; 2] = ["quote1", "quote12"];
 
 #[derive(Clone, Copy, PartialEq, Debug)]
 pub enum Profile {
@@ -255,6 +262,19 @@ fn long_form(rng: &mut Rng, s: &str) -> String {
     format!("{}.{}{}", int, frac, "0".repeat(want - frac.len()))
 }
 
+/// a denomination whose name is a proper fragment (or an extension) of a configured one: "uote1",
+/// "quote", "quote1x" for "quote1" – never one the contract trades
+fn fragment(rng: &mut Rng, d: &str) -> String {
+    if d.len() < 2 {
+        return format!("{}x", d);
+    }
+    match rng.below(3) {
+        0 => d[1..].to_string(),
+        1 => d[..d.len() - 1].to_string(),
+        _ => format!("{}x", d),
+    }
+}
+
 fn respell(rng: &mut Rng, s: &str) -> String {
     match rng.below(8) {
         6 | 7 => long_form(rng, s),
@@ -327,7 +347,8 @@ impl Gen {
     }
 
     pub fn rate(&mut self) -> String {
-        let rates = ["0", "0.003", "0.01", "0.010", "0.1", "0.25", "0.5", "1", "0.0005", "0.02", "0.15", "0.0126", "0.125", "0.0349"];
+        // (rates above 1 are legal: the fee then exceeds what it is a fee on)
+        let rates = ["0", "0.003", "0.01", "0.010", "0.1", "0.25", "0.5", "1", "0.0005", "0.02", "0.15", "0.0126", "0.125", "0.0349", "1.5", "2"];
         if self.profile == Profile::Malformed && self.rng.pct(20) {
             return self.rng.pick(&["-0.1", "abc", "1e-3", "", " 0.1", "0..1", "0.02 ", "\t0.1", "+0.1", "0.1_", "_0.1", "0.1\n", "0,1", "0.33333333333333333333333333333", "0.02000000000000000000000000005zz"]).to_string();
         }
@@ -572,7 +593,14 @@ impl Gen {
         } else {
             self.rng.pick(&info.convertible_base_denoms).clone()
         };
-        let quote = self.rng.pick(&info.supported_quote_denoms).clone();
+        let mut quote = self.rng.pick(&info.supported_quote_denoms).clone();
+        let mut base = base;
+        match self.rng.below(60) {
+            // a base / quote that is only a fragment of a traded denomination, funded in that very coin
+            0 => base = fragment(&mut self.rng, &base),
+            1 => quote = fragment(&mut self.rng, &quote),
+            _ => {}
+        }
         let price = self.price(info.price_precision.u128() as u32);
         let mut size = info.size_increment.u128().saturating_mul(self.lots());
         let mut price = price;
@@ -627,7 +655,12 @@ impl Gen {
     }
 
     fn gen_create_bid(&mut self, w: &World, info: &ContractInfoV3) -> Step {
-        let quote = self.rng.pick(&info.supported_quote_denoms).clone();
+        let mut quote = self.rng.pick(&info.supported_quote_denoms).clone();
+        if self.rng.pct(3) {
+            // the whole request (quote, fee coin, funds) coherently in a denomination that is only a
+            // fragment of a traded one
+            quote = fragment(&mut self.rng, &quote);
+        }
         let price = self.price(info.price_precision.u128() as u32);
         let mut size = info.size_increment.u128().saturating_mul(self.lots());
         let mut price = price;
@@ -1057,12 +1090,13 @@ impl Gen {
                 let mut base = info.base_denom.clone();
                 let mut sender = if info.approvers.is_empty() { self.acct() } else { self.rng.pick(&info.approvers).to_string() };
                 if self.rng.pct(self.w.perturb_pct / 2) {
-                    match self.rng.below(6) {
+                    match self.rng.below(8) {
                         0 => size += 1,
                         1 => base = a.as_ref().map(|a| a.base.clone()).unwrap_or_else(|| "other".into()),
                         2 => sender = self.acct(),
                         3 => base = String::new(),
                         4 => size = 0,
+                        5 => base = fragment(&mut self.rng, &info.base_denom),
                         _ => size = size.saturating_sub(1),
                     }
                 }
